@@ -363,24 +363,44 @@ theorem caller_pluck (callee args : Frag) (hc : Frag.CleanFor .par callee) (ha :
     pluckFuncCallArguments (callee.render ++ '(' :: (args.render ++ [')'])) = .ok args.render :=
   pluck_call callee args hc ha
 
-/-- `Py2Cpp.proc_for_range` on `callee(a, b)` / `callee(a, b, c)` with `n` argument nodes: begin, size (, step) are exactly
-    the argument texts, for arbitrary bracket-balanced arguments without top-level comma (strings may hold any bracket but
-    parentheses); a different number of pieces is the `ValueError` of the tuple unpacking. -/
-theorem caller_range (callee : Frag) (fs : List Frag) (n : Nat) (hc : Frag.CleanFor .par callee) (hne : fs ≠ [])
+/-- RETIRED production site (kept as a statement about the two helpers): until /repo ed1a7d7 `Py2Cpp.proc_for_range` took
+    begin, size (, step) from `break_separator(pluck_func_call_arguments('callee(a, b)'), ',')`. For arguments that are
+    bracket-balanced fragments without top-level comma (strings may hold any bracket but parentheses) this composition gives
+    exactly the argument texts; another number of pieces is the `ValueError` of the tuple unpacking. The hypothesis
+    "bracket-balanced" is what real argument texts violate — see `retired_range_lt_hazard`. -/
+theorem retired_range_split (callee : Frag) (fs : List Frag) (n : Nat) (hc : Frag.CleanFor .par callee) (hne : fs ≠ [])
     (hf : ∀ a ∈ fs, CallArg a) (hl : ∀ l, fs.getLast? = some l → l ≠ .nil) (hn : n ≠ 1) :
-    forRangeVars (callee.render ++ '(' :: ((Frag.join ',' fs).render ++ [')'])) n
+    splitCallArguments (callee.render ++ '(' :: ((Frag.join ',' fs).render ++ [')'])) n
       = if n = 2 then (match fs.map fun f => strip f.render with | [b, s] => .ok (b, s, ['1']) | _ => .error .ValueError)
         else (match fs.map fun f => strip f.render with | [b, s, st] => .ok (b, s, st) | _ => .error .ValueError) :=
-  forRange_args callee fs n hc hne hf hl hn
+  splitCall_args callee fs n hc hne hf hl hn
 
-/-- non-vacuity: `range(f(1, 2), g[3, 4])` with two argument nodes -/
+/-- non-vacuity: `range(f(1, 2), g[3, 4])` with two arguments -/
 example :
     let callee : Frag := .atom 'r' (.atom 'a' (.atom 'n' (.atom 'g' (.atom 'e' .nil))))
     let a : Frag := .atom 'f' (.group .par (.atom '1' (.atom ',' (.atom ' ' (.atom '2' .nil)))) .nil)
     let b : Frag := .atom ' ' (.atom 'g' (.group .sq (.atom '3' (.atom ',' (.atom ' ' (.atom '4' .nil)))) .nil))
     Frag.CleanFor .par callee ∧ (∀ x ∈ [a, b], CallArg x) ∧
-      forRangeVars (callee.render ++ '(' :: ((Frag.join ',' [a, b]).render ++ [')'])) 2
+      splitCallArguments (callee.render ++ '(' :: ((Frag.join ',' [a, b]).render ++ [')'])) 2
         = .ok (['f', '(', '1', ',', ' ', '2', ')'], ['g', '[', '3', ',', ' ', '4', ']'], ['1']) := by
+  decide
+
+/-- The hazard the fix ed1a7d7 removed: an argument with a lone `<` is not a bracket-balanced fragment — the scanner
+    opens a `<>` block at it and swallows the comma, the unpacking fails (`range(a << 1, n)` → `ValueError`, which made the
+    transpiler stop). The helpers are unchanged; they are simply no longer applied to rendered expressions here. -/
+theorem retired_range_lt_hazard :
+    splitCallArguments ['r', 'a', 'n', 'g', 'e', '(', 'a', ' ', '<', '<', ' ', '1', ',', ' ', 'n', ')'] 2 = .error .ValueError ∧
+    breakSeparator ['a', ' ', '<', ' ', 'b', ',', ' ', 'n'] [','] = .ok [['a', ' ', '<', ' ', 'b', ',', ' ', 'n']] := by
+  decide
+
+/-- `Py2Cpp.is_initializer_call('T(args)', 'T')` is true for every type text and argument fragment (strings without
+    parentheses); a call chain `T(1).dup()` is not an initializer call. -/
+theorem caller_initializer_call (ty args : Frag) (ht : Frag.CleanFor .par ty) (ha : Frag.CleanFor .par args) :
+    isInitializerCall (ty.render ++ '(' :: (args.render ++ [')'])) ty.render = .ok true :=
+  isInitializerCall_call ty args ht ha
+
+example : isInitializerCall ['A', '(', '1', ')', '.', 'd', '(', ')'] ['A'] = .ok false ∧
+    isInitializerCall ['A', '<', 'B', '>', '(', 'f', '(', '1', ')', ',', ' ', '2', ')'] ['A', '<', 'B', '>'] = .ok true := by
   decide
 
 /-- `Py2Cpp.on_throw` on `path(a, …)`: `calls = path`, `arguments` = the argument texts. -/
